@@ -51,6 +51,19 @@ Definition submat {T} (M : cmat T) (rows cols : list Z) : cmat T :=
 
 Definition list_Zeqb (a b : list Z) : bool := list_eqb Z.eqb a b.
 
+(* size of the terms summed in (M x)_i: sum |v| |x_b| (1-norms); rounding errors of the sum scale with it *)
+Definition c1norm (z : cx float) : float := PrimFloat.add (PrimFloat.abs (fst z)) (PrimFloat.abs (snd z)).
+Fixpoint mrow_mag (M : cmat float) (i : Z) (x : Z -> cx float) : float :=
+  match M with
+  | [] => PrimFloat.zero
+  | (a, b, v) :: r => if (a =? i) then PrimFloat.add (PrimFloat.mul (c1norm v) (c1norm (x b))) (mrow_mag r i x) else mrow_mag r i x
+  end.
+(* both parts within t * (1 + |b| + mag) *)
+Definition ccl_mag (t mag : float) (a b : cx float) : bool :=
+  let s := PrimFloat.mul t (PrimFloat.add (PrimFloat.add PrimFloat.one (c1norm b)) mag) in
+  PrimFloat.leb (PrimFloat.abs (PrimFloat.sub (fst a) (fst b))) s &&
+  PrimFloat.leb (PrimFloat.abs (PrimFloat.sub (snd a) (snd b))) s.
+
 (* the recorded first solve: matrix, right-hand side, answer *)
 Definition solve_rec := (list (Z * Z * lit2) * list lit2 * list lit2)%type.
 
@@ -64,9 +77,9 @@ Definition check_solve (rhs : cx float -> cx float) (sguard : Z -> bool) (n : Z)
   let xs := map fcx x in
   let xfun := fun i => match pos free i with Some k => znth xs k (c0 Fops) | None => c0 Fops end in
   mat_agree nf (submat L free free) A &&
-  all2 (fun i bi => ccl (opt_rhs_fn Fops rhs L fixed var0 i) (fcx bi)) free b &&
+  all2 (fun i bi => ccl_mag tol (mrow_mag L i (mask Fops fixed var0)) (opt_rhs_fn Fops rhs L fixed var0 i) (fcx bi)) free b &&
   (Z.of_nat (length x) =? nf) &&
-  all2 (fun i bi => ccl_t tol_res (mrow_dot Fops L i (mask Fops free xfun)) (fcx bi)) free b &&
+  all2 (fun i bi => ccl_mag tol_res (mrow_mag L i (mask Fops free xfun)) (mrow_dot Fops L i (mask Fops free xfun)) (fcx bi)) free b &&
   (if sguard (Z.of_nat n_smooth)
    then forallb (fun i => ccl (norm_elem Fops (var0 i)) (fcx (znth final i ((0, 0), (0, 0))))) fixed
    else all2 (fun i fi => ccl (norm_elem Fops (scatter var0 free xfun i)) (fcx fi)) (zrange n) final).
